@@ -174,6 +174,119 @@ func runC16(c *core.Ctx) {
 		}
 	})
 
+	// ---- the last byte of the ephemeral key: blobs whose byte 31 takes chosen values (made with
+	// the reference encryptor), every other value substituted at that position
+	c.Job("ephemeral-last-byte", c.N(24, 600), func(i int, r *core.Rand) {
+		var plain []byte
+		for tries := 0; tries < 20 && plain == nil; tries++ {
+			m, _ := gen.LeaseSet2(r)
+			if _, rem, err := lease_set2.ReadLeaseSet2(m.Encode()); err == nil && len(rem) == 0 {
+				plain = m.Encode()
+			}
+		}
+		if plain == nil {
+			return
+		}
+		priv, pub, _ := rm.X25519KeyPair(r.Bytes(32))
+		want := []byte{0x00, 0x7f, 0x01, 0x40, 0x3f}[i%5]
+		var blob []byte
+		for tries := 0; tries < 4000; tries++ {
+			b, err := rm.EncryptInner(plain, pub, r.Bytes(32), r.Bytes(12))
+			if err == nil && b[31] == want {
+				blob = b
+				break
+			}
+		}
+		if blob == nil {
+			c.Bucket("ephemeral-last-byte/no-blob-found")
+			return
+		}
+		c.Eval(1)
+		c.Nontrivial([]byte("eph31"), blob)
+		var cookie [32]byte
+		els, err := elsWith(blob)
+		if err != nil {
+			return
+		}
+		if got, derr := els.DecryptInnerData(cookie[:], x25519.PrivateKey(priv)); derr != nil || got == nil {
+			c.Violate("encrypted_leaseset.DecryptInnerData", "reference-blob-does-not-decrypt", gen.Shape{"byte31": int(want)}, blob, fmt.Sprint(derr))
+			return
+		}
+		for v := 0; v < 256; v++ {
+			if byte(v) == want {
+				continue
+			}
+			b := append([]byte{}, blob...)
+			b[31] = byte(v)
+			e2, err := elsWith(b)
+			if err != nil {
+				continue
+			}
+			c.Eval(1)
+			if got, derr := e2.DecryptInnerData(cookie[:], x25519.PrivateKey(priv)); derr == nil || got != nil {
+				c.Violate("encrypted_leaseset.DecryptInnerData", "modified-ciphertext-decrypts", gen.Shape{"pos": 31, "from": int(want), "to": v, "region": "ephemeral-key"}, b, fmt.Sprintf("byte 31 changed from %#x to %#x still decrypts", want, v))
+			}
+		}
+		c.Bucket(fmt.Sprintf("ephemeral-last-byte/%#02x-all-255-substitutions", want))
+	})
+	c.Exhaustive("all 255 substitutions of byte 31 of the encrypted blob for chosen original values 0x00 0x7f 0x01 0x40 0x3f")
+
+	// ---- earlier ciphertexts stay valid while further encryptions happen (no shared output buffer)
+	c.Job("encrypt-history", c.N(60, 1500), func(i int, r *core.Rand) {
+		type rec struct {
+			plain, blob, priv []byte
+		}
+		var hist []rec
+		var cookie [32]byte
+		for k := 0; k < 4; k++ {
+			var ls2 lease_set2.LeaseSet2
+			var plain []byte
+			for tries := 0; tries < 20 && plain == nil; tries++ {
+				m, _ := gen.LeaseSet2(r)
+				if k > 0 { // later messages no larger than the first, so that a reused buffer would fit
+					m.Options = rm.Mapping{Pairs: []rm.Pair{}}
+					if len(m.Leases) > 1 {
+						m.Leases = m.Leases[:1]
+					}
+					if len(m.Keys) > 1 {
+						m.Keys = m.Keys[:1]
+					}
+				}
+				if p, rem, err := lease_set2.ReadLeaseSet2(m.Encode()); err == nil && len(rem) == 0 {
+					ls2, plain = p, m.Encode()
+				}
+			}
+			if plain == nil {
+				return
+			}
+			priv, pub, _ := rm.X25519KeyPair(r.Bytes(32))
+			blob, err := encrypted_leaseset.EncryptInnerLeaseSet2(&ls2, cookie, x25519.PublicKey(pub))
+			if err != nil {
+				return
+			}
+			hist = append(hist, rec{plain, blob, priv}) // the returned slice is kept as returned (not copied)
+		}
+		c.Eval(1)
+		c.Nontrivial([]byte("hist"), hist[0].blob)
+		for k, h := range hist {
+			els, err := elsWith(h.blob)
+			if err != nil {
+				continue
+			}
+			got, derr := els.DecryptInnerData(cookie[:], x25519.PrivateKey(h.priv))
+			sh := gen.Shape{"message": k, "of": len(hist)}
+			if derr != nil || got == nil {
+				c.Violate("encrypted_leaseset.EncryptInnerLeaseSet2", "earlier-ciphertext-invalid-after-later-encryptions", sh, h.blob, fmt.Sprintf("ciphertext %d of %d no longer decrypts after later encryptions: %v", k, len(hist), derr))
+				return
+			}
+			if gb, _ := got.Bytes(); !bytes.Equal(gb, h.plain) {
+				c.Violate("encrypted_leaseset.EncryptInnerLeaseSet2", "earlier-ciphertext-invalid-after-later-encryptions", sh, h.blob, fmt.Sprintf("ciphertext %d of %d decrypts to a different LeaseSet2 after later encryptions", k, len(hist)))
+				return
+			}
+		}
+		c.Bucket("encrypt-history-ok")
+	})
+
 	// ---- blinding
 	locs := []*time.Location{time.UTC, time.FixedZone("east", 14*3600), time.FixedZone("west", -12*3600), time.FixedZone("half", 5*3600+1800)}
 	c.Job("blinding", c.N(400, 8000), func(i int, r *core.Rand) {
